@@ -429,6 +429,9 @@ def r9(ctx):
                 if any(e.name == 'CALL' and e.data['callee'] == VEC + 'push' for e in evs):
                     ctx.violate(b.key, p, 'drain_into fails after appending to the vector')
                 continue
+            for e in evs:
+                if e.name == 'Q.drain_all' and e.data['vec'] != ('param', vi):
+                    ctx.violate(b.key, p, 'the buffer is drained into something other than the caller\'s vector', at=e.at)
             # (b) queue loop
             pops = [e for e in evs if e.name == 'Q.pop_front']
             if not pops:
